@@ -1,3 +1,4 @@
+mod c12;
 mod distprobe;
 mod enc;
 mod fw;
@@ -157,6 +158,15 @@ fn main() {
     let args: Vec<String> = std::env::args().collect();
     match args.get(1).map(|s| s.as_str()) {
         Some("fw") => cmd_fw(&args[2..]),
+        Some("c12") => {
+            let a = &args[2..];
+            c12::run(
+                arg(a, "--seed").map(|s| s.parse().unwrap()).unwrap_or(1),
+                arg(a, "--n").map(|s| s.parse().unwrap()).unwrap_or(100),
+                &arg(a, "--out").expect("--out"),
+                arg(a, "--only").map(|s| s.parse().unwrap()),
+            )
+        }
         Some("c01std") => {
             let a = &args[2..];
             stdprobe::run(
